@@ -625,6 +625,12 @@ func sliceValue[T scalarProtoFieldGoType](fd *FieldData, wt csproto.WireType, re
 			res = make([]T, 0, len(fd.data))
 		}
 		for _, data := range fd.data {
+			if len(data) == 0 && wt == csproto.WireTypeLengthDelimited {
+				// an empty string value is still a value (an empty packed run holds none)
+				var empty T
+				res = append(res, empty)
+				continue
+			}
 			// data contains 1 or more encoded values of type T
 			// . invoke convertFn at each successive offset to extract them
 			for offset := 0; offset < len(data); {
